@@ -111,7 +111,7 @@ def one(ctx, i, tmproot):
                           no_trailing_newline=p.features.get(kind + "_no_trailing_newline", False),
                           file_ending=p.features.get(kind + "_ending"), run_raised=raised)
                 b_tree = ast.parse(before_src[kind])
-                b_top, b_sib, b_doc = others(b_tree, p.names[kind], DEF_NAME[kind])
+                b_top, b_sib, b_doc = others(b_tree, p.names[kind], p.def_name[kind])
                 ctx.case((truth, tuple(sorted(pre.items())), method, kind, tuple(type(s).__name__ for s in b_top)), nontrivial=bool(b_top or b_sib),
                          sample={"file": os.path.basename(fn), "pre": p.pre[kind], "before": before_src[kind][:500]}, sample_key=(kind, p.pre[kind]))
                 ctx.feature("file_pre=" + p.pre[kind])
@@ -127,14 +127,14 @@ def one(ctx, i, tmproot):
                 except SyntaxError as e:
                     ctx.report(dict(tb, field="file", tag="does_not_compile", expected="compilable module", observed=str(e)[:100]), dict(replay, after=after_src))
                 ctx.event("files_compared")
-                a_top, a_sib, a_doc = others(a_tree, p.names[kind], DEF_NAME[kind])
+                a_top, a_sib, a_doc = others(a_tree, p.names[kind], p.def_name[kind])
                 # anything appended with the target's simple name is "the definition that was added"
-                a_top = [s for s in a_top if not (isinstance(s, (ast.FunctionDef, ast.ClassDef)) and s.name == DEF_NAME[kind]
+                a_top = [s for s in a_top if not (isinstance(s, (ast.FunctionDef, ast.ClassDef)) and s.name == p.def_name[kind]
                                                   and ast.dump(_norm(s)) not in _dumps(b_top, False))]
                 # ... but a definition that existed beforehand is replaced where it stands, not joined by a second one
                 if "." not in p.names[kind]:
                     def _count(tree):
-                        return sum(1 for s in tree.body if isinstance(s, (ast.FunctionDef, ast.ClassDef)) and s.name == DEF_NAME[kind])
+                        return sum(1 for s in tree.body if isinstance(s, (ast.FunctionDef, ast.ClassDef)) and s.name == p.def_name[kind])
                     nb, na = _count(b_tree), _count(a_tree)
                     ctx.event("definition_counts_compared")
                     if nb >= 1 and na != nb:
@@ -166,7 +166,7 @@ def one(ctx, i, tmproot):
                         f.write("\nZQ_EDITED_BY_HAND_{} = {}\n".format(i, rng.randint(1, 99)))
             from ..syncsim import definition_src
             with open(p.files[truth], "w") as f:
-                f.write(definition_src(truth, p.stale_ir) + "\n")
+                f.write(definition_src(truth, p.stale_ir, name=p.def_name[truth]) + "\n")
             before2 = {k: (open(f).read() if os.path.exists(f) else None) for k, f in p.files.items()}
             ctx.event("second_syncs_after_hand_edit")
             sync_and_judge(before2, base, dict(replay, second_phase_files=before2), "second_sync_after_hand_edit")
